@@ -1,7 +1,9 @@
 package main
 
 import (
+	"encoding/json"
 	"fmt"
+	"os"
 	"strings"
 	"sync/atomic"
 	"time"
@@ -99,13 +101,36 @@ func tryExpr(r *harness.Run, text string, docs []interface{}, sigPrefix string) 
 
 func checkC05(r *harness.Run) harness.Coverage {
 	r.Rule = "(1) every string of up to n symbols over a 50-symbol alphabet with one member per lexer character class and class boundary (incl. NUL, DEL, U+0080, U+0081, U+00FF, U+07FF, U+0800, U+FFFF, U+10000, U+10FFFF and invalid UTF-8 bytes); (2) the pumping family u^k v w^k up to 64 KiB; (3) every sentence of the function / projection / core universes plus hostile leaves (extreme integers, empty quoted identifier, non-ASCII and invalid-UTF-8 raw strings), plus sentences with expression references in every operand position, x 30 documents of every JSON type. Oracle: Compile and Search return (recover() per case, watchdog per case). Non-trivial = the string compiles, or is rejected after the first symbol; distinct by string"
-	r.Assumptions = []string{"exhaustive for the stated alphabet and length only; longer inputs are represented by the pumping family", "termination is judged by a per-case watchdog of 120 s (legitimate cases take microseconds) here, and by a deterministic statement budget in the instrumented pass of C06/C13"}
+	r.Assumptions = []string{"exhaustive for the stated alphabet and length only; longer inputs are represented by the pumping family", "termination is judged twice: a per-case watchdog of 120 s (legitimate cases take microseconds) on the code as shipped, and a deterministic statement budget plus growth-rate bound on the instrumented build over the pumped families"}
 	n := 3
 	if r.Thorough() {
 		n = 4
 	}
 	if r.Thorough() && r.Deadline.IsZero() {
 		n = 5
+	}
+	// deterministic termination / complexity pass (instrumented build, run by ./check before this driver)
+	var stepCalls, statements int64
+	if data, err := os.ReadFile(harness.Root + "/bin/c05-steps.json"); err == nil {
+		var side struct {
+			Counters   map[string]int64       `json:"counters"`
+			Notes      map[string]interface{} `json:"notes"`
+			Violations []harness.Violation    `json:"violations"`
+			Samples    []interface{}          `json:"samples"`
+		}
+		if json.Unmarshal(data, &side) == nil {
+			stepCalls, statements = side.Counters["step_counted_calls"], side.Counters["statements"]
+			for _, v := range side.Violations {
+				r.Report(v)
+			}
+			for _, sm := range side.Samples {
+				r.Sample(sm)
+			}
+			r.Note("step_pass", fmt.Sprintf("%v pumped families x k in {8,16,32,64,128}: %d calls, %d statements counted on the instrumented build; budget %v statements per call; growth must stay below 3x per doubling", side.Notes["pumped_families"], stepCalls, statements, side.Notes["statement_budget"]))
+		}
+		os.Remove(harness.Root + "/bin/c05-steps.json")
+	} else {
+		r.Note("step_pass", "not run (instrumented pass result missing)")
 	}
 	syms := univ.ByteSymbols
 	w := newWatch(r, 120*time.Second)
@@ -233,7 +258,7 @@ func checkC05(r *harness.Run) harness.Coverage {
 			})
 		}
 	}
-	r.Evaluations = strs + pumped + gen + searches
+	r.Evaluations = strs + pumped + gen + searches + stepCalls
 	r.Traces = strs + pumped + gen
 	r.States = strs + pumped + gen
 	r.Transitions = strs + pumped + gen + searches
